@@ -1676,11 +1676,22 @@ def check_from_expression(rep: Report, ix) -> None:
         cart = None
         for cn in g.nodes:
             a = cn.ast
-            if cn.kind == "stmt" and isinstance(a, ast.Assign) and len(a.targets) == 1 and isinstance(a.targets[0], ast.Subscript) and isinstance(a.targets[0].slice, ast.Constant) and a.targets[0].slice.value == "cartesian":
-                v = resolve_expr(g, cn, a.value)
+            # the entry is either stored into the dictionary (`consts["cartesian"] = V`) or a new dictionary with the entry
+            # is bound to the name (`consts = {**consts, "cartesian": V}`)
+            entry = None
+            if cn.kind == "stmt" and isinstance(a, ast.Assign) and len(a.targets) == 1:
+                t0 = a.targets[0]
+                if isinstance(t0, ast.Subscript) and isinstance(t0.slice, ast.Constant) and t0.slice.value == "cartesian":
+                    entry = (a.value, dotted(t0.value))
+                elif isinstance(t0, ast.Name) and isinstance(a.value, ast.Dict):
+                    for k_, v_ in zip(a.value.keys, a.value.values):
+                        if isinstance(k_, ast.Constant) and k_.value == "cartesian":
+                            entry = (v_, t0.id)
+            if entry is not None:
+                v = resolve_expr(g, cn, entry[0])
                 if not (isinstance(v, ast.Call) and _leaf(v.func) == "moveaxis" and len(v.args) == 3 and not v.keywords):
                     raise _grammar(fi, a, f"cartesian helper `{ast.unparse(v)[:60]}`")
-                cart = (ast.unparse(v.args[0]).replace(grid, "grid"), ast.unparse(v.args[1]), ast.unparse(v.args[2]), dotted(a.targets[0].value))
+                cart = (ast.unparse(v.args[0]).replace(grid, "grid"), ast.unparse(v.args[1]), ast.unparse(v.args[2]), entry[1])
                 okc = cart[0] == "grid.point_to_cartesian(grid.cell_coords)" and cart[1:3] == ("-1", "0") and cart[3] == "consts"
                 _ob(rep, "from-expression-cartesian", fi.ref, "cartesian-constant", okc, f"`cartesian` constant is moveaxis({cart[0]}, {cart[1]}, {cart[2]}) stored in `{cart[3]}`; expected the Cartesian cell coordinates with the component axis moved from last to first, stored in `consts`, so that `cartesian[k]` is the k-th coordinate", line=a.lineno)
         if cart is None:
